@@ -63,6 +63,12 @@ type cScript struct {
 	Deadline bool `json:"deadline,omitempty"`
 	// BufMax > 0: Connection.Buffer(nil, BufMax)
 	BufMax int `json:"buf_max,omitempty"`
+	// TimeoutTErrs: transport errors implement Timeout()/Temporary() returning true (a dial or
+	// TLS-handshake timeout): still just a failed attempt while the context is live.
+	TimeoutTErrs bool `json:"timeout_terrs,omitempty"`
+	// Cause: the context is cancelled with a cause (context.WithCancelCause); Connect must still
+	// return the context's error (ctx.Err()).
+	Cause bool `json:"cause,omitempty"`
 }
 
 // blockBody is a response body that never delivers anything until it is closed: a stream
@@ -108,9 +114,16 @@ type readErr struct{ n int }
 
 func (e *readErr) Error() string { return fmt.Sprintf("injected read error #%d", e.n) }
 
-type transportErr struct{ n int }
+type transportErr struct {
+	n       int
+	timeout bool
+}
 
-func (e *transportErr) Error() string { return fmt.Sprintf("injected transport error #%d", e.n) }
+func (e *transportErr) Error() string   { return fmt.Sprintf("injected transport error #%d", e.n) }
+func (e *transportErr) Timeout() bool   { return e.timeout }
+func (e *transportErr) Temporary() bool { return e.timeout }
+
+var errCancelCause = errors.New("injected cancellation cause")
 
 // ---- observation ----------------------------------------------------------------------------
 
@@ -165,6 +178,10 @@ func runClient(t *testing.T, sc *cScript) (obs *cObs) {
 	}()
 	synctest.Test(t, func(t *testing.T) {
 		ctx, cancelFn := context.WithCancel(context.Background())
+		if sc.Cause {
+			c2, cc := context.WithCancelCause(context.Background())
+			ctx, cancelFn = c2, func() { cc(errCancelCause) }
+		}
 		base := time.Now()
 		cancel := cancelFn
 		if sc.Deadline {
@@ -241,7 +258,7 @@ func runClient(t *testing.T, sc *cScript) (obs *cObs) {
 			if sp.CancelInRT {
 				cancel()
 				if sp.RTErrAfterCancel {
-					e := &transportErr{a}
+					e := &transportErr{n: a, timeout: sc.TimeoutTErrs}
 					obs.TErrs[a] = e
 					return nil, e
 				}
@@ -252,7 +269,7 @@ func runClient(t *testing.T, sc *cScript) (obs *cObs) {
 			}
 			switch sp.Kind {
 			case "terr":
-				e := &transportErr{a}
+				e := &transportErr{n: a, timeout: sc.TimeoutTErrs}
 				obs.TErrs[a] = e
 				return nil, e
 			case "reject":
